@@ -45,7 +45,7 @@ pub async fn run() {
         Some(x) => x,
         None => return,
     };
-    let peer::ClientVsPeer { mut client, mut peer, net, .. } = cvp;
+    let peer::ClientVsPeer { mut client, mut peer, net, mon, .. } = cvp;
     let bf = sim::in_group(1, Session::begin(&mut client));
     let pb = async {
         let b = peer.expect(wire::BEGIN).await?;
@@ -302,6 +302,24 @@ pub async fn run() {
                     sim::probe("peer-end-reported-on-link");
                 }
                 _ => {}
+            }
+        }
+    }
+    // a peer's detach is answered in kind no later than the application's next operation on the link
+    if matches!(script, Script::AttachRefused | Script::IdleLinkClosedByPeer | Script::IdleLinkDetachedByPeer) {
+        world::quiesce_pair(&net).await;
+        mon.borrow_mut().sync();
+        let m = mon.borrow();
+        let answered = m.ends[0].sessions.iter().flat_map(|s| s.links.iter()).find(|l| l.name == "under-test").map(|l| (l.detached, l.detach_closed));
+        let want_closed = script != Script::IdleLinkDetachedByPeer;
+        match answered {
+            Some((true, closed)) if closed == want_closed || (closed && !want_closed) => sim::probe("peer-detach-answered-in-kind"),
+            other => {
+                sim::violation(
+                    "peer-detach-not-answered",
+                    format!("the peer detached the link (closed={}); after the application's next operation the endpoint's answer on the wire is {:?} (detached, closed)", want_closed, other),
+                );
+                return;
             }
         }
     }
